@@ -7,7 +7,7 @@ use proptest::collection::vec;
 use proptest::prelude::*;
 use serde::{Deserialize, Serialize};
 
-pub const PNAMES: [&str; 6] = ["alpha", "bravo", "carol", "delta", "echo", "request"];
+pub const PNAMES: [&str; 7] = ["alpha", "bravo", "carol", "delta", "echo", "request", "donn\u{00e9}es"];
 pub const ANNS: [&str; 6] = ["int", "str", "db.Conn", "List[int]", "Optional[str]", "\"Fwd\""];
 pub const DEFAULTS: [&str; 4] = ["None", "1", "\"x\"", "()"];
 pub const SCOPES: [&str; 5] = ["function", "class", "module", "package", "session"];
@@ -136,9 +136,9 @@ pub struct PyGenCfg {
     pub body_uses: bool,
 }
 
-fn param(_cfg: &PyGenCfg) -> impl Strategy<Value = PParam> {
+fn param(cfg: &PyGenCfg) -> impl Strategy<Value = PParam> {
     (
-        0usize..PNAMES.len(),
+        0usize..(if cfg.decorations { PNAMES.len() } else { PNAMES.len() - 1 }),
         prop_oneof![1 => Just(0u8), 6 => Just(1u8), 2 => Just(2u8)],
         prop_oneof![3 => Just(None), 1 => (0u8..ANNS.len() as u8).prop_map(Some)],
         prop_oneof![5 => Just(None), 1 => (0u8..DEFAULTS.len() as u8).prop_map(Some)],
@@ -147,7 +147,12 @@ fn param(_cfg: &PyGenCfg) -> impl Strategy<Value = PParam> {
 }
 
 fn names_vec(max: usize) -> impl Strategy<Value = Vec<usize>> {
-    vec(0usize..5, 1..=max).prop_map(|mut v| {
+    names_vec_cfg(max, false)
+}
+
+fn names_vec_cfg(max: usize, non_ascii: bool) -> impl Strategy<Value = Vec<usize>> {
+    let pick = if non_ascii { prop_oneof![6 => 0usize..5, 1 => Just(6usize)].boxed() } else { (0usize..5).boxed() };
+    vec(pick, 1..=max).prop_map(|mut v| {
         let mut seen = vec![];
         v.retain(|x| {
             if seen.contains(x) {
@@ -183,11 +188,11 @@ fn deco_fixture() -> impl Strategy<Value = PDeco> {
 
 fn deco_usefixtures(cfg: &PyGenCfg) -> impl Strategy<Value = PDeco> {
     let ml = cfg.multiline;
-    (names_vec(3), 0u8..2, strform(cfg), any::<bool>()).prop_map(move |(names, spelling, form, m)| PDeco::Usefixtures { names, spelling, form, multiline: ml && m })
+    (names_vec_cfg(3, cfg.decorations), 0u8..2, strform(cfg), any::<bool>()).prop_map(move |(names, spelling, form, m)| PDeco::Usefixtures { names, spelling, form, multiline: ml && m })
 }
 
 fn deco_parametrize(cfg: &PyGenCfg) -> impl Strategy<Value = PDeco> {
-    (names_vec(3), prop_oneof![3 => Just(0u8), 3 => Just(1u8), 1 => Just(2u8), 1 => Just(3u8)], any::<u8>(), strform(cfg))
+    (names_vec_cfg(3, cfg.decorations), prop_oneof![3 => Just(0u8), 3 => Just(1u8), 1 => Just(2u8), 1 => Just(3u8)], any::<u8>(), strform(cfg))
         .prop_map(|(argnames, indirect, subset_mask, form)| PDeco::Parametrize { argnames, indirect, subset_mask, form })
 }
 
